@@ -89,10 +89,16 @@ class C04(Check):
         return out
 
     # ------------------------------------------------------------------
-    def _check_estimator(self, cf, bad, counters, tag=""):
+    def _check_estimator(self, cf, bad, counters, tag="", touch=True):
         members = [k for k in ("dr", "rd", "rr") if getattr(cf, k) is not None]
         terms = {k: normalised_term(nc) for k, nc in cf.to_dict().items()}
         wants = jack.estimator(terms)
+        if touch:
+            # a user inspecting the pair counts through their public accessors before sampling:
+            # the estimate is a function of the measured counts, not of what was looked at before
+            for nc in cf.to_dict().values():
+                nc.get_array(), nc.counts.get_array(), nc.sum_weights.get_array(), nc.sample_patch_sum()
+            counters["accessor_sequences_before_sample"] = counters.get("accessor_sequences_before_sample", 0) + 1
         undefined = "rr" in members and "dr" not in members
         try:
             got = cf.sample()
@@ -125,7 +131,7 @@ class C04(Check):
     def _estimator(self, case, rng, bad, counters):
         nb, npatch = int(rng.integers(1, 9)), int(rng.integers(2, 13))
         cf = gen.gen_corrfunc(rng, nb, npatch, case["auto"], members=case["members"])
-        self._check_estimator(cf, bad, counters)
+        self._check_estimator(cf, bad, counters, touch=case["seed"] % 2 == 0)
 
     def _nz(self, case, rng, bad, counters):
         from yaw import CorrData, RedshiftData
